@@ -13,6 +13,21 @@ type fold struct {
 	err     *file.Error
 }
 
+// foldable reports whether integer literals whose static type is t can be
+// folded with int arithmetic without changing the result: the checker may
+// have retyped the literals of an argument to the parameter's type (float64,
+// uint8, ...), and then the operation is carried out in that type at run time.
+func foldable(t reflect.Type) bool {
+	if t == nil {
+		return true
+	}
+	switch t.Kind() {
+	case reflect.Int, reflect.Int64, reflect.Interface:
+		return true
+	}
+	return false
+}
+
 func (*fold) Enter(*Node) {}
 func (fold *fold) Exit(node *Node) {
 	patch := func(newNode Node) {
@@ -30,11 +45,11 @@ func (fold *fold) Exit(node *Node) {
 	case *UnaryNode:
 		switch n.Operator {
 		case "-":
-			if i, ok := n.Node.(*IntegerNode); ok {
+			if i, ok := n.Node.(*IntegerNode); ok && foldable(i.Type()) {
 				patchWithType(&IntegerNode{Value: -i.Value}, n.Node.Type())
 			}
 		case "+":
-			if i, ok := n.Node.(*IntegerNode); ok {
+			if i, ok := n.Node.(*IntegerNode); ok && foldable(i.Type()) {
 				patchWithType(&IntegerNode{Value: i.Value}, n.Node.Type())
 			}
 		}
@@ -42,8 +57,8 @@ func (fold *fold) Exit(node *Node) {
 	case *BinaryNode:
 		switch n.Operator {
 		case "+":
-			if a, ok := n.Left.(*IntegerNode); ok {
-				if b, ok := n.Right.(*IntegerNode); ok {
+			if a, ok := n.Left.(*IntegerNode); ok && foldable(a.Type()) {
+				if b, ok := n.Right.(*IntegerNode); ok && foldable(b.Type()) {
 					patchWithType(&IntegerNode{Value: a.Value + b.Value}, a.Type())
 				}
 			}
@@ -53,20 +68,20 @@ func (fold *fold) Exit(node *Node) {
 				}
 			}
 		case "-":
-			if a, ok := n.Left.(*IntegerNode); ok {
-				if b, ok := n.Right.(*IntegerNode); ok {
+			if a, ok := n.Left.(*IntegerNode); ok && foldable(a.Type()) {
+				if b, ok := n.Right.(*IntegerNode); ok && foldable(b.Type()) {
 					patchWithType(&IntegerNode{Value: a.Value - b.Value}, a.Type())
 				}
 			}
 		case "*":
-			if a, ok := n.Left.(*IntegerNode); ok {
-				if b, ok := n.Right.(*IntegerNode); ok {
+			if a, ok := n.Left.(*IntegerNode); ok && foldable(a.Type()) {
+				if b, ok := n.Right.(*IntegerNode); ok && foldable(b.Type()) {
 					patchWithType(&IntegerNode{Value: a.Value * b.Value}, a.Type())
 				}
 			}
 		case "/":
-			if a, ok := n.Left.(*IntegerNode); ok {
-				if b, ok := n.Right.(*IntegerNode); ok {
+			if a, ok := n.Left.(*IntegerNode); ok && foldable(a.Type()) {
+				if b, ok := n.Right.(*IntegerNode); ok && foldable(b.Type()) {
 					if b.Value == 0 {
 						fold.err = &file.Error{
 							Location: (*node).Location(),
@@ -78,8 +93,8 @@ func (fold *fold) Exit(node *Node) {
 				}
 			}
 		case "%":
-			if a, ok := n.Left.(*IntegerNode); ok {
-				if b, ok := n.Right.(*IntegerNode); ok {
+			if a, ok := n.Left.(*IntegerNode); ok && foldable(a.Type()) {
+				if b, ok := n.Right.(*IntegerNode); ok && foldable(b.Type()) {
 					if b.Value == 0 {
 						fold.err = &file.Error{
 							Location: (*node).Location(),
@@ -91,8 +106,8 @@ func (fold *fold) Exit(node *Node) {
 				}
 			}
 		case "**":
-			if a, ok := n.Left.(*IntegerNode); ok {
-				if b, ok := n.Right.(*IntegerNode); ok {
+			if a, ok := n.Left.(*IntegerNode); ok && foldable(a.Type()) {
+				if b, ok := n.Right.(*IntegerNode); ok && foldable(b.Type()) {
 					patch(&FloatNode{Value: math.Pow(float64(a.Value), float64(b.Value))})
 				}
 			}
